@@ -14,6 +14,7 @@ func init() {
 	replayers["(*Raft).appendEntries"] = replayAppendEntries
 	replayers["(*Raft).installSnapshot"] = replayInstallSnapshot
 	replayers["NewRaft"] = replayNewRaft
+	replayers["(*Raft).appendConfigurationEntry"] = replayAppendConfigurationEntry
 }
 
 func mInt(m map[string]string, k string, def int64) int64 {
@@ -396,6 +397,70 @@ func TestGovcReplay(t *testing.T) {
 	t.Logf("after restart: lastApplied=%d commitIndex=%d latest configuration (index %d) = %+v", r.getLastApplied(), r.getCommitIndex(), r.configurations.latestIndex, r.configurations.latest.Servers)
 	if len(r.configurations.latest.Servers) != 2 || r.configurations.latestIndex != 1 {
 		t.Fatalf("config_scan_covers_log violated: the configuration entry at index 1 (<= replayed commit index 2) was skipped by the start-up scan; the server restarted with configuration %+v", r.configurations.latest.Servers)
+	}
+}
+`
+	return "TestGovcReplay", test, true
+}
+
+// appendConfigurationEntry: the leader's own write of the configuration entry fails.
+func replayAppendConfigurationEntry(m map[string]string, o *Oblig) (string, string, bool) {
+	if !strings.Contains(o.Name, "latest_only_if_stored") {
+		return "", "", false
+	}
+	test := `package raft
+
+import (
+	"errors"
+	"testing"
+)
+
+type govcFailStoreLogs2 struct {
+	LogStore
+	fail bool
+}
+
+func (s *govcFailStoreLogs2) StoreLogs(logs []*Log) error {
+	if s.fail {
+		return errors.New("disk full")
+	}
+	return s.LogStore.StoreLogs(logs)
+}
+
+func TestGovcReplay(t *testing.T) {
+	inner := NewInmemStore()
+	shim := &govcFailStoreLogs2{LogStore: inner}
+	conf := DefaultConfig()
+	conf.LocalID = "me"
+	conf.skipStartup = true
+	_, trans := NewInmemTransport("me")
+	r, err := NewRaft(conf, &MockFSM{}, shim, inner, NewInmemSnapshotStore(), trans)
+	if err != nil {
+		t.Fatal(err)
+	}
+	cfg := Configuration{Servers: []Server{{Suffrage: Voter, ID: "me", Address: "me"}, {Suffrage: Voter, ID: "b", Address: "b"}, {Suffrage: Voter, ID: "c", Address: "c"}}}
+	if err := inner.StoreLogs([]*Log{{Index: 1, Term: 1, Type: LogConfiguration, Data: EncodeConfiguration(cfg)}}); err != nil {
+		t.Fatal(err)
+	}
+	r.setLastLog(1, 1)
+	r.setCurrentTerm(1)
+	r.setLatestConfiguration(cfg, 1)
+	r.setCommittedConfiguration(cfg, 1)
+	r.setState(Leader)
+	r.setupLeaderState()
+	// no replication goroutines in this harness
+	r.leaderState.replState = map[ServerID]*followerReplication{}
+	shim.fail = true
+	fut := &configurationChangeFuture{req: configurationChangeRequest{command: RemoveServer, serverID: "c"}}
+	fut.init()
+	func() {
+		defer func() { recover() }() // startStopReplication may touch transports that are not set up here
+		r.appendConfigurationEntry(fut)
+	}()
+	last, _ := inner.LastIndex()
+	t.Logf("future error=%v state=%v latestIndex=%d store.LastIndex=%d latest=%+v", fut.Error(), r.getState(), r.configurations.latestIndex, last, r.configurations.latest.Servers)
+	if r.configurations.latestIndex > last {
+		t.Fatalf("latest_only_if_stored violated: the configuration entry could not be stored (the future failed with %q) but the new configuration is installed as latest at index %d while the log ends at %d", fut.Error(), r.configurations.latestIndex, last)
 	}
 }
 `
